@@ -58,6 +58,7 @@ Clause(e, s0, s1, must, f0) ==
   ELSE IF e.op = "classdef" THEN
      IF e.raised # must THEN "classdef_raise"
      ELSE IF must THEN "" ELSE ObsClause(e, s1)
+  ELSE IF e.op = "readd" THEN (IF s0.elab THEN (IF SameObs(e, f0) THEN "" ELSE "changed_after_elab") ELSE ObsClause(e, s1))
   ELSE IF must /\ ~e.raised THEN "not_rejected"
   ELSE IF ~must /\ e.raised THEN "unexpected_raise"
   ELSE IF s0.elab THEN (IF SameObs(e, f0) THEN "" ELSE "changed_after_elab")
